@@ -7,6 +7,7 @@ drives the implementation, records what it did, and reports what TLC said.
 from __future__ import annotations
 
 import json
+import multiprocessing
 import os
 import re
 import shutil
@@ -35,6 +36,7 @@ class CallTimeout(Exception):
 
 
 _alarm_armed = False
+_abort = multiprocessing.Value("i", 0)     # shared with forked pool workers
 
 
 def _on_alarm(signum, frame):
@@ -43,18 +45,47 @@ def _on_alarm(signum, frame):
 
 def limited(fn, seconds=60):
     """Run fn() under a wall-clock limit (main thread of the process only; pool workers qualify).  The limits
-    used are several orders of magnitude above the normal duration of the guarded calls."""
+    used are several orders of magnitude above the normal duration of the guarded calls.  Nests: an enclosing
+    limit keeps running."""
     global _alarm_armed
     if threading.current_thread() is not threading.main_thread():
         return fn()
     if not _alarm_armed:
         signal.signal(signal.SIGALRM, _on_alarm)
         _alarm_armed = True
-    signal.setitimer(signal.ITIMER_REAL, seconds)
+    t0 = time.time()
+    outer, _ = signal.setitimer(signal.ITIMER_REAL, seconds)
+    if outer and outer < seconds:
+        signal.setitimer(signal.ITIMER_REAL, outer)
     try:
         return fn()
     finally:
-        signal.setitimer(signal.ITIMER_REAL, 0)
+        signal.setitimer(signal.ITIMER_REAL, max(outer - (time.time() - t0), 0.01) if outer else 0)
+
+
+def job_limit():
+    """Wall-clock limit of one pool job: far above the longest legitimate job of the tier (backstop against a
+    library call that never returns; the hot call sites have their own, much tighter, limits)."""
+    v = os.environ.get("VERIF_JOB_LIMIT")
+    if v:
+        return float(v)
+    return 2400.0 if os.environ.get("VERIF_TIER_RUNNING", "quick") == "quick" else 6 * 3600.0
+
+
+class Guarded:
+    """Picklable wrapper: pool.map(Guarded(job), jobs) runs every job under job_limit()."""
+
+    def __init__(self, fn, seconds=None):
+        self.fn, self.seconds = fn, seconds
+
+    def __call__(self, *a, **kw):
+        if _abort.value:        # an earlier job of this run did not terminate: fail the remaining jobs at once
+            raise CallTimeout("aborted: an earlier job did not terminate")
+        try:
+            return limited(lambda: self.fn(*a, **kw), self.seconds or job_limit())
+        except CallTimeout:
+            _abort.value = 1
+            raise
 
 
 class MachineryError(Exception):
